@@ -11,7 +11,7 @@ _cache = {}
 
 def dump_mir(crate_dir, fresh=True):
     """returns MIR text for /repo/<crate_dir> (lib target), rebuilt from the working tree"""
-    scratch = os.path.join(BUILD, "mir-scratch-%d" % os.getpid())
+    scratch = os.path.join(BUILD, "mir-scratch-%d-%s" % (os.getpid(), crate_dir))
     tgt = os.path.join(BUILD, "mir-target")
     if os.path.exists(scratch):
         shutil.rmtree(scratch)
